@@ -4,36 +4,38 @@
 (* operators on it and prints the expected observations of the whole battery             *)
 (* (acyclic_term, ground, term_variables, ==, compare both ways, copy_term, = for every  *)
 (* node / pair of nodes), which props/C24.py replays on the real heap.                   *)
-EXTENDS TermGraph, Json
+EXTENDS TermGraph, Json, IOUtils
 
 CONSTANTS
   Sizes,        \* node counts enumerated completely
   CanonOnly,    \* TRUE: one graph per isomorphism class (least code); FALSE: every labelled graph
   Chunks,       \* initial states per size (parallelism only)
   SampleN,      \* node count of the sampled space (0: none)
-  SampleCount,  \* graphs sampled from it
-  Seed
+  SampleCount   \* graphs sampled from it
 
-VARIABLES phase, n, chunk, code
-vars == <<phase, n, chunk, code>>
+VARIABLES phase, n, chunk, code, sd
+vars == <<phase, n, chunk, code, sd>>
+
+(* offset of the sample: VERIF_SEED, passed by the driver; read once in Init (IOEnv is expensive) *)
+EnvSeed == IF "C24_SEED" \in DOMAIN IOEnv THEN atoi(IOEnv.C24_SEED) ELSE 1
 
 Total(N) == Pw(NK(N), N)
 Stride == 50021                        \* coprime to NK(4)^4 = 47^4 and to 30^3; idx * Stride < 2^31 for idx < 42 000
 
 Init ==
-  /\ phase = "pick" /\ code = 0
+  /\ phase = "pick" /\ code = 0 /\ sd = EnvSeed % 100000
   /\ \/ n \in Sizes /\ chunk \in 0..(Chunks - 1)
      \/ SampleN > 0 /\ n = SampleN /\ chunk \in Chunks..(2 * Chunks - 1)
 
 Next ==
-  /\ phase = "pick" /\ phase' = "case" /\ UNCHANGED <<n, chunk>>
+  /\ phase = "pick" /\ phase' = "case" /\ UNCHANGED <<n, chunk, sd>>
   /\ IF chunk < Chunks
      THEN /\ code' \in {chunk + Chunks * k : k \in 0..(Total(n) \div Chunks)}
           /\ code' < Total(n)
           /\ (CanonOnly => Canonical(Decode(code', n)))
      ELSE \E idx \in 0..(SampleCount - 1) :
             /\ (idx % Chunks) = (chunk - Chunks)
-            /\ code' = (((Seed * 7919) % Total(n)) + (idx * Stride)) % Total(n)
+            /\ code' = (((sd * 7919) % Total(n)) + (idx * Stride)) % Total(n)
 
 PairSeq(N) ==
   LET S == {p \in (1..N) \X (1..N) : p[1] < p[2]}
